@@ -28,6 +28,9 @@ type limitedResponseWriter struct {
 	hijacked     bool
 	statusCode   int
 	ctx          context.Context
+	// headerAtWriteHeader is the header as it stood when the handler called WriteHeader:
+	// net/http sends that, whatever the handler does to the map afterwards
+	headerAtWriteHeader http.Header
 }
 
 // Write implements io.Writer, tracking bytes written and enforcing the limit
@@ -91,6 +94,18 @@ func (lrw *limitedResponseWriter) ensureHeaderWritten() {
 		lrw.statusCode = http.StatusOK
 	}
 
+	// Changes made to the header map after WriteHeader do not belong to the response
+	if lrw.headerAtWriteHeader != nil {
+		h := lrw.ResponseWriter.Header()
+		for k := range h {
+			delete(h, k)
+		}
+		for k, v := range lrw.headerAtWriteHeader {
+			h[k] = v
+		}
+		lrw.headerAtWriteHeader = nil
+	}
+
 	lrw.ResponseWriter.WriteHeader(lrw.statusCode)
 	lrw.wroteHeader = true
 }
@@ -112,6 +127,7 @@ func (lrw *limitedResponseWriter) WriteHeader(statusCode int) {
 	}
 	// Just record the status code, don't write it yet
 	lrw.statusCode = statusCode
+	lrw.headerAtWriteHeader = lrw.ResponseWriter.Header().Clone()
 }
 
 // Support http.Hijacker if underlying supports it (for websockets)
